@@ -565,6 +565,30 @@ func (w *typedWorker) one(ip net.IP, mask net.IPMask) {
 			_ = netutil.ZeroPrefix(netutil.AddrFamilyIPv6)
 		})
 	}
+	// netip values as the address of hosts records: marshalled, and stored - as the first record of a fresh
+	// storage and after others
+	for _, a := range addrs {
+		call("hostsfile.records", func() {
+			for _, names := range [][]string{{"host.example"}, {"a.example", "A.example", "b"}, nil, {}} {
+				rec := &hostsfile.Record{Addr: a, Names: names, Source: "typed"}
+				_, _ = rec.MarshalText()
+				st, _ := hostsfile.NewDefaultStorage()
+				st.Add(rec)
+				_ = st.ByAddr(a)
+				_ = st.ByName("host.example")
+				st.Add(&hostsfile.Record{Addr: netip.AddrFrom4([4]byte{192, 0, 2, 1}), Names: []string{"other.example"}})
+				st.Add(rec)
+				st.Add(&hostsfile.Record{Addr: a, Names: []string{"later.example"}})
+				st.RangeNames(func(netip.Addr, []string) bool { return true })
+				st.RangeAddrs(func(string, []netip.Addr) bool { return true })
+				st2, _ := hostsfile.NewDefaultStorage()
+				st2.Add(&hostsfile.Record{Addr: netip.AddrFrom4([4]byte{192, 0, 2, 1}), Names: []string{"other.example"}})
+				st2.Add(rec)
+				_ = st.Equal(st2)
+				_ = st2.Equal(st)
+			}
+		})
+	}
 	w.cur.Idle()
 }
 
